@@ -747,12 +747,20 @@ pub mod xf {
         let s = match action {
             0 => format!("{:?}", o),
             1 => format!("<{:?}>{:?}", o, o),
+            // into a sink that takes 3 / 40 / 300 bytes and rejects the piece that does not fit: the pieces arrive one by one, in
+            // order, and formatting stops at the first rejected piece
+            2 | 3 | 4 => {
+                use ::core::fmt::Write;
+                let mut sink = LimitedSink::new([3usize, 40, 300][action - 2]);
+                let r = write!(sink, "{:?}", o);
+                return Obs { ret: sink.outcome(r), post: 0, ptr_ok: true };
+            }
             _ => unreachable!(),
         };
         Obs { ret: digest(&s), post: 0, ptr_ok: true }
     }
-    pub const ACTIONS: &[(bool, u64)] = &[(false, 4), (false, 4)];
-    pub const DESC: &str = "built-in ext trait core::fmt::Debug (plain formatting; output in one piece and in pieces of 1..4096 bytes)";
+    pub const ACTIONS: &[(bool, u64)] = &[(false, 4), (false, 4), (false, 4), (false, 4), (false, 4)];
+    pub const DESC: &str = "built-in ext trait core::fmt::Debug (plain formatting; output in one piece and in pieces of 1..4096 bytes; into a String and into sinks of limited capacity)";
 }
 pub mod xp {
     #![allow(unused_variables, unused_mut, clippy::all)]
@@ -766,12 +774,20 @@ pub mod xp {
         let s = match action {
             0 => format!("{}", o),
             1 => format!("<{}>{}", o, o),
+            // into a sink that takes 3 / 40 / 300 bytes and rejects the piece that does not fit: the pieces arrive one by one, in
+            // order, and formatting stops at the first rejected piece
+            2 | 3 | 4 => {
+                use ::core::fmt::Write;
+                let mut sink = LimitedSink::new([3usize, 40, 300][action - 2]);
+                let r = write!(sink, "{}", o);
+                return Obs { ret: sink.outcome(r), post: 0, ptr_ok: true };
+            }
             _ => unreachable!(),
         };
         Obs { ret: digest(&s), post: 0, ptr_ok: true }
     }
-    pub const ACTIONS: &[(bool, u64)] = &[(false, 4), (false, 4)];
-    pub const DESC: &str = "built-in ext trait core::fmt::Display (plain formatting; output in one piece and in pieces of 1..4096 bytes)";
+    pub const ACTIONS: &[(bool, u64)] = &[(false, 4), (false, 4), (false, 4), (false, 4), (false, 4)];
+    pub const DESC: &str = "built-in ext trait core::fmt::Display (plain formatting; output in one piece and in pieces of 1..4096 bytes; into a String and into sinks of limited capacity)";
 }
 """
 
